@@ -20,7 +20,8 @@
 //!       (sign)   a message signed by the primary and by each signing subkey verifies with the re-imported public
 //!                key and does NOT verify with a different key
 //!       (crypt)  a message encrypted to each encryption key decrypts with the re-imported secret key
-//!       (lock)   with a passphrase: every secret packet is locked, unlocks with the passphrase, a wrong one fails
+//!       (lock)   every secret packet is locked iff ITS passphrase was requested (also per-subkey passphrases that differ
+//!                from the primary's), unlocks with ITS passphrase, a wrong one / another packet's one fails
 //!     The number of generated secret scalars with a leading zero octet is counted and must be > 0 for the
 //!     MPI-encoded EdDSALegacy and ECDSA/ECDH-NIST scalars (extra seeds are listed for that).
 //! section 2 (C08)  lock matrix: a v4 and a v6 key, primary and subkey packet x {usage 254 CFB with Simple (v4) /
@@ -51,6 +52,12 @@
 //!     1..=5 blocks), produced by an independent sender, through ecdh::derive_session_key, SecretKey::decrypt and
 //!     Message::decrypt (hand-built PKESK v3): never a panic, p > len => error, 1 <= p < len => the unpadded value
 //!     (p == 0 is kept out: recorded separately)
+//! section 6 (C12)  SEIPDv2: SymEncryptedProtectedData::encrypt_seipdv2 (AES128 x GCM / OCB / EAX, 64 octet chunks) of
+//!     plaintexts of 0, 1, 2, 3, 254..257, 300 (thorough: 511, 512, 700, 1024, 65535..65537) chunks with and without a
+//!     partial last chunk, and the MessageBuilder with a password recipient: an INDEPENDENT RFC 9580 5.13.2 recipient
+//!     (hkdf + sha2 key schedule with info D2 02 07 mode 00, per chunk nonce IV || be64(index) and AD = info, final tag
+//!     over the empty string with AD = info || be64(total octets); aes-gcm / ocb3 / eax crates as single-shot AEAD
+//!     primitives) authenticates every chunk and the final tag and gets the plaintext; the library decrypts it too
 //! usage: c07_bounded <N> [replay-case-hex]
 use std::panic::{catch_unwind, AssertUnwindSafe};
 
@@ -185,6 +192,9 @@ struct Shape {
     uids: Vec<&'static str>,
     subs: Vec<SubSpec>,
     lock: Lock,
+    /// per-packet passphrases (primary, one per subkey) overriding `lock` = everything locked with PASSPHRASE;
+    /// `lock` then only selects the S2K parameters
+    pws: Option<(Option<&'static str>, Vec<Option<&'static str>>)>,
     prefs: u8,
     seipd_v2: bool,
     /// seeds per RNG kind = max(1, N / cost); cost 0 = fixed number of seeds `fixed`
@@ -193,6 +203,24 @@ struct Shape {
     thorough_only: bool,
     /// further ChaCha8Rng seeds (known to give a leading zero octet in a secret scalar)
     extra8: Vec<u64>,
+}
+
+impl Shape {
+    fn primary_pass(&self) -> Option<&'static str> {
+        match &self.pws {
+            Some((p, _)) => *p,
+            None => (self.lock != Lock::None).then_some(PASSPHRASE),
+        }
+    }
+    fn sub_pass(&self, i: usize) -> Option<&'static str> {
+        match &self.pws {
+            Some((_, s)) => s[i],
+            None => (self.lock != Lock::None).then_some(PASSPHRASE),
+        }
+    }
+    fn any_locked(&self) -> bool {
+        self.primary_pass().is_some() || (0..self.subs.len()).any(|i| self.sub_pass(i).is_some())
+    }
 }
 
 struct Prefs {
@@ -264,6 +292,7 @@ fn shapes() -> Vec<Shape> {
         uids: vec![],
         subs: vec![],
         lock: Lock::None,
+        pws: None,
         prefs: 1,
         seipd_v2: false,
         cost: 1,
@@ -334,6 +363,28 @@ fn shapes() -> Vec<Shape> {
     s.lock = Lock::CheapCfb;
     s.cost = 4;
     v.push(s);
+    // 10..15: per-subkey passphrases (SubkeyParamsBuilder::passphrase)
+    for v6 in [false, true] {
+        let (ver, prim, enc_kt, lock, vs) = if v6 {
+            (KeyVersion::V6, KeyType::Ed25519, KeyType::X25519, Lock::CheapAead, "v6 Ed25519")
+        } else {
+            (KeyVersion::V4, KeyType::Ed25519Legacy, cv(), Lock::CheapCfb, "v4 Ed25519Legacy")
+        };
+        let variants: [(&'static str, Option<&'static str>, Option<&'static str>, Option<&'static str>); 3] = [
+            ("primary unlocked / signing subkey 'sub pw' / encryption subkey unlocked", None, Some("sub pw"), None),
+            ("primary 'primary pw' / signing subkey 'sub pw' / encryption subkey unlocked", Some("primary pw"), Some("sub pw"), None),
+            ("primary 'pw' / signing subkey 'pw' / encryption subkey 'pw'", Some("pw"), Some("pw"), Some("pw")),
+        ];
+        for (what, p0, p1, p2) in variants {
+            let name: &'static str = Box::leak(format!("{vs} + [sign subkey, encryption subkey] passphrases: {what}").into_boxed_str());
+            let mut s = base(name, ver, prim.clone());
+            s.subs = vec![sub(prim.clone(), true, EncryptionCaps::None, false), sub(enc_kt.clone(), false, EncryptionCaps::All, false)];
+            s.lock = lock;
+            s.pws = Some((p0, vec![p1, p2]));
+            s.cost = 2;
+            v.push(s);
+        }
+    }
     // ---- thorough only
     let mut s = base("v4 ECDSA P384 + [ECDH P384]", KeyVersion::V4, KeyType::ECDSA(ECCCurve::P384));
     s.subs = vec![sub(KeyType::ECDH(ECCCurve::P384), false, EncryptionCaps::All, false)];
@@ -397,8 +448,8 @@ fn generate(shape: &Shape, kind: u8, seed: u64) -> Result<SignedSecretKey, Strin
             .can_encrypt(s.enc)
             .can_authenticate(s.auth)
             .created_at(Timestamp::from_secs(created(seed) + 1 + i as u32));
-        if shape.lock != Lock::None {
-            b.passphrase(Some(PASSPHRASE.to_string()));
+        if let Some(p) = shape.sub_pass(i) {
+            b.passphrase(Some(p.to_string()));
             b.s2k(lock_params(shape.lock, seed, 1 + i as u8));
         }
         subkeys.push(b.build().map_err(e("gen", "subkey parameters refused"))?);
@@ -421,8 +472,8 @@ fn generate(shape: &Shape, kind: u8, seed: u64) -> Result<SignedSecretKey, Strin
     if let Some(uid) = shape.primary_uid {
         b.primary_user_id(uid.to_string());
     }
-    if shape.lock != Lock::None {
-        b.passphrase(Some(PASSPHRASE.to_string()));
+    if let Some(p) = shape.primary_pass() {
+        b.passphrase(Some(p.to_string()));
         b.s2k(lock_params(shape.lock, seed, 0));
     }
     let params = b.build().map_err(e("gen", "key parameters refused"))?;
@@ -628,7 +679,8 @@ fn diff(a: &SignedSecretKey, b: &SignedSecretKey) -> String {
 
 fn keygen_case(shape: &Shape, kind: u8, seed: u64, lz: &mut LeadingZeros) -> Result<bool, String> {
     let key = generate(shape, kind, seed)?;
-    let pass: &[u8] = if shape.lock == Lock::None { b"" } else { PASSPHRASE.as_bytes() };
+    let pass: &[u8] = shape.primary_pass().unwrap_or("").as_bytes();
+    let sub_pass = |i: usize| -> &[u8] { shape.sub_pass(i).unwrap_or("").as_bytes() };
 
     // (gen)
     if key.primary_key.version() != shape.version || key.primary_key.algorithm() != shape.primary.to_alg() {
@@ -649,7 +701,7 @@ fn keygen_case(shape: &Shape, kind: u8, seed: u64, lz: &mut LeadingZeros) -> Res
 
     // (lock) + leading zero statistics
     {
-        let locked = shape.lock != Lock::None;
+        let locked = shape.primary_pass().is_some();
         if key.primary_key.secret_params().is_encrypted() != locked {
             return Err(format!("(lock) primary secret material encrypted: {}, passphrase requested: {locked}", !locked));
         }
@@ -659,13 +711,18 @@ fn keygen_case(shape: &Shape, kind: u8, seed: u64, lz: &mut LeadingZeros) -> Res
             return Err("(lock) primary unlocks with a wrong passphrase".into());
         }
         for (i, sk) in key.secret_subkeys.iter().enumerate() {
+            let locked = shape.sub_pass(i).is_some();
             if sk.key.secret_params().is_encrypted() != locked {
                 return Err(format!("(lock) subkey {i} secret material encrypted: {}, passphrase requested: {locked}", !locked));
             }
-            let plain = sk.key.unlock(&pw(pass), |_, s| Ok(s.clone())).map_err(e("lock", "subkey does not unlock with its passphrase"))?.map_err(e("lock", "subkey"))?;
+            let plain = sk.key.unlock(&pw(sub_pass(i)), |_, s| Ok(s.clone())).map_err(e("lock", "subkey does not unlock with its passphrase"))?.map_err(e("lock", "subkey"))?;
             count_lz(lz, &plain);
             if locked && sk.key.unlock(&pw(b""), |_, _| Ok(())).is_ok() {
                 return Err(format!("(lock) subkey {i} unlocks with the empty passphrase"));
+            }
+            // another packet's passphrase must not open it
+            if locked && shape.primary_pass().is_some() && shape.primary_pass() != shape.sub_pass(i) && sk.key.unlock(&pw(pass), |_, _| Ok(())).is_ok() {
+                return Err(format!("(lock) subkey {i} unlocks with the primary's passphrase instead of its own"));
             }
         }
     }
@@ -773,7 +830,7 @@ fn keygen_case(shape: &Shape, kind: u8, seed: u64, lz: &mut LeadingZeros) -> Res
         }
         keys.pop().unwrap()
     };
-    if !same_key(&key, &back, shape.lock != Lock::None) {
+    if !same_key(&key, &back, shape.any_locked()) {
         return Err(format!("(bin) key differs from itself after binary export and re-import ({})", diff(&key, &back)));
     }
     back.verify_bindings().map_err(e("bin", "re-imported key is not valid"))?;
@@ -785,7 +842,7 @@ fn keygen_case(shape: &Shape, kind: u8, seed: u64, lz: &mut LeadingZeros) -> Res
     // (armor)
     let armored = key.to_armored_string(None.into()).map_err(e("armor", "armored export failed"))?;
     let (back_a, _) = SignedSecretKey::from_string(&armored).map_err(|x| format!("(armor) armored re-import of the generated key failed: {x}"))?;
-    if !same_key(&key, &back_a, shape.lock != Lock::None) {
+    if !same_key(&key, &back_a, shape.any_locked()) {
         return Err(format!("(armor) key differs from itself after armored export and re-import ({})", diff(&key, &back_a)));
     }
     if back_a != back {
@@ -826,7 +883,7 @@ fn keygen_case(shape: &Shape, kind: u8, seed: u64, lz: &mut LeadingZeros) -> Res
     }
     for (i, s) in shape.subs.iter().enumerate() {
         if s.sign {
-            sign_verify(&key.secret_subkeys[i].key, pass, &pback.public_subkeys[i].key, Some(&pback.primary_key), &format!("signing subkey {i}"), seed)?;
+            sign_verify(&key.secret_subkeys[i].key, sub_pass(i), &pback.public_subkeys[i].key, Some(&pback.primary_key), &format!("signing subkey {i}"), seed)?;
         }
     }
     // (crypt)
@@ -835,7 +892,7 @@ fn keygen_case(shape: &Shape, kind: u8, seed: u64, lz: &mut LeadingZeros) -> Res
     }
     for (i, s) in shape.subs.iter().enumerate() {
         if s.enc != EncryptionCaps::None {
-            encrypt_decrypt(shape.version, &pback.public_subkeys[i].key, &back, pass, &format!("encryption subkey {i}"), seed)?;
+            encrypt_decrypt(shape.version, &pback.public_subkeys[i].key, &back, sub_pass(i), &format!("encryption subkey {i}"), seed)?;
         }
     }
     Ok(true)
@@ -1273,6 +1330,7 @@ fn plain_key(version: KeyVersion, primary: KeyType, sub: KeyType, seed: u64) -> 
         uids: vec![],
         subs: vec![SubSpec { kt: sub, sign: false, enc: EncryptionCaps::All, auth: false }],
         lock: Lock::None,
+        pws: None,
         prefs: 1,
         seipd_v2: false,
         cost: 1,
@@ -2163,6 +2221,168 @@ fn section5(ctx: &mut Ctx, _n: u64) {
     }
 }
 
+// ---------------------------------------------------------------------------------------------------------------
+// section 6: SEIPDv2 construction (C12) against an independent implementation of RFC 9580 5.13.2
+// (hkdf + sha2 for the key schedule, aes-gcm / eax / ocb3 crates as single-shot AEAD primitives)
+// ---------------------------------------------------------------------------------------------------------------
+
+/// single-shot AEAD open with AES-128; `ct` = ciphertext || 16 octet tag
+fn aead_open(mode: AeadAlgorithm, key: &[u8], nonce: &[u8], ad: &[u8], ct: &[u8]) -> Result<Vec<u8>, String> {
+    use aes_gcm::aead::generic_array::{typenum::{U15, U16}, GenericArray};
+    use aes_gcm::aead::{AeadInPlace, KeyInit};
+    if ct.len() < 16 {
+        return Err("shorter than a tag".into());
+    }
+    let (body, tag) = ct.split_at(ct.len() - 16);
+    let mut buf = body.to_vec();
+    let tag = GenericArray::<u8, U16>::from_slice(tag);
+    let r = match mode {
+        AeadAlgorithm::Gcm => aes_gcm::Aes128Gcm::new_from_slice(key).map_err(|x| x.to_string())?.decrypt_in_place_detached(GenericArray::from_slice(nonce), ad, &mut buf, tag),
+        AeadAlgorithm::Eax => eax::Eax::<aes::Aes128>::new_from_slice(key).map_err(|x| x.to_string())?.decrypt_in_place_detached(GenericArray::from_slice(nonce), ad, &mut buf, tag),
+        AeadAlgorithm::Ocb => ocb3::Ocb3::<aes::Aes128, U15, U16>::new_from_slice(key).map_err(|x| x.to_string())?.decrypt_in_place_detached(GenericArray::from_slice(nonce), ad, &mut buf, tag),
+        _ => return Err("mode".into()),
+    };
+    r.map_err(|_| "AEAD tag mismatch".to_string())?;
+    Ok(buf)
+}
+
+/// RFC 9580 5.13.2 for AES-128 and 64 octet chunks (chunk size octet 0)
+fn seipdv2_reference_open(mode: AeadAlgorithm, salt: &[u8; 32], session_key: &[u8], body: &[u8]) -> Result<Vec<u8>, String> {
+    let mode_id: u8 = match mode {
+        AeadAlgorithm::Eax => 1,
+        AeadAlgorithm::Ocb => 2,
+        AeadAlgorithm::Gcm => 3,
+        _ => return Err("mode".into()),
+    };
+    let nonce_len = match mode_id {
+        1 => 16,
+        2 => 15,
+        _ => 12,
+    };
+    let info = [0xd2u8, 0x02, 7 /* AES-128 */, mode_id, 0 /* 64 octet chunks */];
+    let mut okm = vec![0u8; 16 + nonce_len - 8];
+    hkdf::Hkdf::<sha2::Sha256>::new(Some(&salt[..]), session_key).expand(&info, &mut okm).map_err(|x| x.to_string())?;
+    let (key, iv) = okm.split_at(16);
+    let nonce_for = |index: u64| {
+        let mut n = iv.to_vec();
+        n.extend_from_slice(&index.to_be_bytes());
+        n
+    };
+    if body.len() < 16 {
+        return Err("body shorter than the final tag".into());
+    }
+    let (chunks, final_tag) = body.split_at(body.len() - 16);
+    let mut plain = Vec::with_capacity(chunks.len());
+    let mut index = 0u64;
+    for chunk in chunks.chunks(64 + 16) {
+        let p = aead_open(mode, key, &nonce_for(index), &info, chunk).map_err(|x| format!("chunk {index} ({} octets) does not authenticate under nonce IV || be64({index}) with AD = info: {x}", chunk.len()))?;
+        if p.is_empty() {
+            return Err(format!("chunk {index} is empty"));
+        }
+        plain.extend_from_slice(&p);
+        index += 1;
+    }
+    let mut ad = info.to_vec();
+    ad.extend_from_slice(&(plain.len() as u64).to_be_bytes());
+    aead_open(mode, key, &nonce_for(index), &ad, final_tag).map_err(|x| format!("final tag does not authenticate under nonce IV || be64({index}) with AD = info || be64({}): {x}", plain.len()))?;
+    Ok(plain)
+}
+
+fn section6(ctx: &mut Ctx, n: u64) {
+    use pgp::packet::{SymEncryptedProtectedData, SymEncryptedProtectedDataConfig};
+    let thorough = n >= 200;
+    let modes = [AeadAlgorithm::Gcm, AeadAlgorithm::Ocb, AeadAlgorithm::Eax];
+    // (full 64 octet chunks, further octets)
+    let mut sizes: Vec<(usize, usize)> = vec![(0, 0), (0, 17), (1, 0), (1, 5), (2, 0), (3, 17), (254, 63), (255, 0), (255, 1), (256, 0), (256, 5), (257, 0), (300, 33)];
+    if thorough {
+        sizes.extend([(511, 63), (512, 0), (700, 33), (1024, 1), (65535, 63), (65536, 0), (65537, 1)]);
+    }
+    for (mi, mode) in modes.iter().enumerate() {
+        for &(chunks, extra) in &sizes {
+            if chunks > 60000 && mi != 0 && !(mi == 1 && chunks == 65536) {
+                continue;
+            }
+            let id = format!("07{:x}{:05x}{:02x}", mi, chunks, extra);
+            if !ctx.wanted(&id) {
+                continue;
+            }
+            let seed = chunks as u64 * 31 + extra as u64;
+            let desc = format!("SEIPDv2 AES128 {mode:?} 64 octet chunks, plaintext of {chunks} full chunks + {extra} octets (session key, plaintext, salt from ChaCha8Rng seed {seed})");
+            let mode = *mode;
+            ctx.run(&id, &desc, move || {
+                let mut rng = ChaCha8Rng::seed_from_u64(seed);
+                let mut session_key = [0u8; 16];
+                rng.fill_bytes(&mut session_key);
+                let mut plaintext = vec![0u8; chunks * 64 + extra];
+                rng.fill_bytes(&mut plaintext);
+                let enc = SymEncryptedProtectedData::encrypt_seipdv2(&mut rng, SymmetricKeyAlgorithm::AES128, mode, ChunkSize::C64B, &session_key, &plaintext)
+                    .map_err(|x| format!("(seipd2) encrypt_seipdv2 fails: {x}"))?;
+                let SymEncryptedProtectedDataConfig::V2 { salt, .. } = enc.config() else {
+                    return Err("(seipd2) not a version 2 packet".into());
+                };
+                let want_len = plaintext.len() + 16 * ((plaintext.len() + 63) / 64) + 16;
+                if enc.data().len() != want_len {
+                    return Err(format!("(seipd2) {} octets of ciphertext, RFC 9580 5.13.2 gives {want_len} (chunks + a tag each + final tag)", enc.data().len()));
+                }
+                let got = seipdv2_reference_open(mode, salt, &session_key, enc.data()).map_err(|x| format!("(seipd2) the emitted ciphertext is not the RFC 9580 5.13.2 construction: {x}"))?;
+                if got != plaintext {
+                    return Err("(seipd2) an independent RFC 9580 recipient gets a different plaintext".into());
+                }
+                let dec = enc
+                    .decrypt(&session_key, Some(SymmetricKeyAlgorithm::AES128), pgp::types::Seipdv1ReadMode::default())
+                    .map_err(|x| format!("(seipd2) the library does not decrypt its own SEIPDv2 output: {x}"))?;
+                if dec != plaintext {
+                    return Err("(seipd2) decrypt(encrypt(x)) != x".into());
+                }
+                Ok(true)
+            });
+        }
+    }
+    // through the MessageBuilder (streaming writer), password recipient; the session key is taken from the builder
+    for (mi, mode) in modes.iter().enumerate() {
+        for &(chunks, extra) in &[(3usize, 17usize), (256, 5), (300, 33)] {
+            let id = format!("07{:x}{:05x}{:02x}", 8 + mi, chunks, extra);
+            if !ctx.wanted(&id) {
+                continue;
+            }
+            let seed = chunks as u64 * 31 + extra as u64;
+            let desc = format!("MessageBuilder seipd_v2 AES128 {mode:?} ChunkSize::C64B, password recipient, literal data of {} octets (ChaCha8Rng seed {seed})", chunks * 64 + extra);
+            let mode = *mode;
+            ctx.run(&id, &desc, move || {
+                let mut rng = ChaCha8Rng::seed_from_u64(seed);
+                let mut data = vec![0u8; chunks * 64 + extra];
+                rng.fill_bytes(&mut data);
+                let mut b = MessageBuilder::from_bytes("", data.clone()).seipd_v2(&mut rng, SymmetricKeyAlgorithm::AES128, mode, ChunkSize::C64B);
+                let s2k = StringToKey::new_iterated(&mut rng, HashAlgorithm::Sha256, 0);
+                b.encrypt_with_password(&mut rng, s2k, &pw(b"message pw")).map_err(|x| format!("(seipd2) encrypt_with_password: {x}"))?;
+                let session_key: Vec<u8> = b.session_key().as_ref().to_vec();
+                let bytes = b.to_vec(&mut rng).map_err(|x| format!("(seipd2) writing the message fails: {x}"))?;
+                // independent recipient on the SEIPD packet of the message
+                let mut seen = false;
+                for p in PacketParser::new(&bytes[..]) {
+                    if let Ok(Packet::SymEncryptedProtectedData(p)) = p {
+                        let SymEncryptedProtectedDataConfig::V2 { salt, .. } = p.config() else {
+                            return Err("(seipd2) not a version 2 packet".into());
+                        };
+                        let inner = seipdv2_reference_open(mode, salt, &session_key, p.data()).map_err(|x| format!("(seipd2) the emitted message is not the RFC 9580 5.13.2 construction: {x}"))?;
+                        if !inner.windows(std::cmp::min(64, data.len())).any(|w| w == &data[..std::cmp::min(64, data.len())]) {
+                            return Err("(seipd2) an independent recipient does not find the literal data in the decrypted packet stream".into());
+                        }
+                        seen = true;
+                    }
+                }
+                let m = Message::from_bytes(&bytes[..]).map_err(|x| format!("(seipd2) message does not parse: {x}"))?;
+                let mut d = m.decrypt_with_password(&pw(b"message pw")).map_err(|x| format!("(seipd2) the library does not decrypt its own message: {x}"))?;
+                let got = d.as_data_vec().map_err(|x| format!("(seipd2) the library does not read its own message: {x}"))?;
+                if got != data {
+                    return Err("(seipd2) message round trip gives different data".into());
+                }
+                Ok(seen)
+            });
+        }
+    }
+}
+
 fn main() {
     let args: Vec<String> = std::env::args().collect();
     let n: u64 = args.get(1).and_then(|s| s.parse().ok()).unwrap_or(40);
@@ -2189,6 +2409,9 @@ fn main() {
         }
         if only(&ctx, "05") {
             section5(&mut ctx, n);
+        }
+        if only(&ctx, "07") {
+            section6(&mut ctx, n);
         }
     }));
     if r.is_err() {
